@@ -333,7 +333,11 @@ func (t *twGen) tree(depth int, kind int) map[string]interface{} {
 				for _, rg := range p {
 					for _, pt := range rg.([]interface{}) {
 						q := pt.([]interface{})
-						q[0] = q[0].(int) + i*4*t.max
+						if t.max < 1<<24 {
+							q[0] = q[0].(int) + i*4*t.max
+						} else {
+							q[0] = q[0].(int) + i*(t.max+t.max/2) // large values: stay below 2^30
+						}
 					}
 				}
 				c = append(c, p)
@@ -393,6 +397,11 @@ func twkbGen(r *rand.Rand, n int, tier string, emit func(Case)) {
 			if lim < max {
 				max = lim
 			}
+		}
+		if i%6 == 5 {
+			// large integers at precision 0: deltas up to 2^29 in magnitude, i.e. five-byte varints (the specification's
+			// integers end at 2^31, so the range 2^31 .. 2^40 of the property stays outside what TLC can judge)
+			q, p, pz, pm, max = 0, 0, 0, 0, 1<<28
 		}
 		if max < 3 {
 			continue
